@@ -38,7 +38,7 @@ class Ref(object):
         self.observed = {}
 
     def children(self, n):
-        return [c for c, nd in self.nodes.items() if ('node', n) in nd['pos']]
+        return [c for c, nd in self.nodes.items() if ('node', n) in nd['pos'] or n in nd.get('named', {}).values()]
 
     def descendants(self, n):
         out = set()
@@ -52,7 +52,7 @@ class Ref(object):
         return out
 
     def snapshot(self):
-        return ({n: (CLSNAME[nd['kind']], tuple(nd['pos']), nd['opid']) for n, nd in self.nodes.items()},
+        return ({n: (CLSNAME[nd['kind']], tuple(nd['pos']), nd['opid'], tuple(sorted(nd.get('named', {}).items()))) for n, nd in self.nodes.items()},
                 {k: v for k, v in self.observed.items()})
 
 
@@ -92,7 +92,8 @@ def structure(m):
             opid = o.args[0] if o.func in (termops.op, termops.draw_op) else o.keywords['distribution'].name_
         else:
             opid = st_['_output'][1]
-        out[n] = (type(ref).__name__, tuple(parents), opid)
+        named = tuple(sorted((d['param'], u) for u, _, d in m.source_net.in_edges(n, data=True) if isinstance(d['param'], str)))
+        out[n] = (type(ref).__name__, tuple(parents), opid, named)
     return out
 
 
@@ -158,7 +159,14 @@ def run_case(case):
             name = 'n%d' % ctr[0]
             obs = ('OBS', ctr[0]) if (kind == 'sim' and obssel < 6) else None
             add_node(model, name, kind, pos, ctr[0], obs)
-            r.nodes[name] = {'kind': kind, 'pos': pos, 'opid': ctr[0]}
+            named = {}
+            if kind == 'op' and rawsel % 3 == 1:
+                # a keyword parent (attached with add_edge(parent, child, 'kw'))
+                pool = [n for n in names if n not in chosen]
+                if pool:
+                    named['kw'] = pool[(rawsel + obssel) % len(pool)]
+                    model.add_edge(named['kw'], name, 'kw')
+            r.nodes[name] = {'kind': kind, 'pos': pos, 'opid': ctr[0], 'named': named}
             if obs is not None:
                 r.observed[name] = obs
             return name
@@ -264,7 +272,7 @@ def run_case(case):
                 with must_not_raise(P, 'copy(); ' + ctx):
                     c = m.copy()
                 cref = Ref()
-                cref.nodes = {k: dict(v, pos=list(v['pos'])) for k, v in ref.nodes.items()}
+                cref.nodes = {k: dict(v, pos=list(v['pos']), named=dict(v.get('named', {}))) for k, v in ref.nodes.items()}
                 cref.observed = dict(ref.observed)
                 check(c, cref, 'fresh copy', ctx)
                 if seeded_output(c, case['seed']) != before[3]:
@@ -322,7 +330,7 @@ def run_case(case):
 CHECK = Check(
     P, 'exploration',
     rule=('Hypothesis-generated histories of 1-18 (thorough 25) steps: add Constant/Operation/Prior/Simulator/Summary/Discrepancy with existing '
-          'nodes and raw constants as parents (raw constants create private nodes), become(node, fresh replacement whose parents are '
+          'nodes, keyword parents and raw constants as parents (raw constants create private nodes), become(node, fresh replacement whose parents are '
           'non-descendants, possibly carrying observed data, or an existing childless node that is not a descendant), remove a childless node, copy() followed by 0-4 mutations of the copy (add, '
           'remove, become, parameter_names=, observed[...]=, del observed, uses_meta=), save()+load(). Indices are resolved modulo the '
           'current state so every list is executable. Non-trivial = a history with at least one become/remove AND a copy that is mutated.'),
